@@ -95,6 +95,7 @@ func runC20(c *Ctx) {
 	ruleFallbacksNotClobbered(c, "R20.7")
 	ruleGroupDecoderLeavesNodesAlone(c, "R20.3")
 	ruleDecodersRejectOnlyUndecodable(c, "R20.5")
+	ruleEncodedIndexIsOwnIndex(c, "R20.8")
 }
 
 // valuesOfType: in fn, the values denoting "the" object of the given struct type: receiver/params of that type, and
@@ -375,6 +376,7 @@ func runC17(c *Ctx) {
 	ruleHashedFieldsMirrored(c, "R17.4")
 	ruleGroupDecoderLeavesNodesAlone(c, "R17.6")
 	ruleInfoDecodedAsReceived(c, "R17.7")
+	ruleDefaultIDIsExact(c, "R17.8")
 	ruleChainInfoInputs(c, "R17.5") // what is fed to the chain hash is the carried-over seed, not a value that changes with membership
 }
 
